@@ -27,7 +27,7 @@ Definition apply_tbl : list (string * list apart) := [
   ("KeyValueExpr", [AOne "Key" "Key"; AOne "Value" "Value"]);
   ("ArrayType", [AOne "Len" "Len"; AOne "Elt" "Elt"]);
   ("StructType", [AOne "Fields" "Fields"]);
-  ("FuncType", [AOne "TypeParams" "TypeParams"; AOne "Params" "Params"; AOne "Results" "Results"]);
+  ("FuncType", [AOneG "TypeParams" "TypeParams"; AOne "Params" "Params"; AOne "Results" "Results"]);
   ("InterfaceType", [AOne "Methods" "Methods"]);
   ("MapType", [AOne "Key" "Key"; AOne "Value" "Value"]);
   ("ChanType", [AOne "Value" "Value"]);
@@ -54,7 +54,7 @@ Definition apply_tbl : list (string * list apart) := [
   ("RangeStmt", [AOne "Key" "Key"; AOne "Value" "Value"; AOne "X" "X"; AOne "Body" "Body"]);
   ("ImportSpec", [AOne "Name" "Name"; AOne "Path" "Path"]);
   ("ValueSpec", [AMany "Names"; AOne "Type" "Type"; AMany "Values"]);
-  ("TypeSpec", [AOne "Name" "Name"; AOne "TypeParams" "TypeParams"; AOne "Type" "Type"]);
+  ("TypeSpec", [AOne "Name" "Name"; AOneG "TypeParams" "TypeParams"; AOne "Type" "Type"]);
   ("BadDecl", []);
   ("GenDecl", [AMany "Specs"]);
   ("FuncDecl", [AOne "Recv" "Recv"; AOne "Name" "Name"; AOne "Type" "Type"; AOne "Body" "Body"]);
